@@ -165,7 +165,31 @@ fn run_job_w<const B: u32>(job: &Job, specs: &[Spec], cfg: &JobCfg) -> JobOut {
     let mut out = JobOut { tag: job.tag.clone(), code: job.code.clone(), width: job.width, ..Default::default() };
     // compile every subject once (totality: a panic here is a finding)
     let mut execs: Vec<Option<Box<dyn Executable<SymCell<B>> + '_>>> = Vec::new();
+    let mut jits: Vec<Option<crate::x86env::JitProg>> = Vec::new();
     for spec in specs {
+        if spec.backend == Backend::Jit {
+            // the real JIT compiles natively (real cell type); its machine code runs in the x86 model
+            engine::LAST_PANIC.with(|p| *p.borrow_mut() = None);
+            let limited = matches!(spec.mode, Mode::Limited(_));
+            let safe = !matches!(spec.mode, Mode::Unsafe(_));
+            let r = catch_unwind(AssertUnwindSafe(|| crate::x86env::build(&job.code, B, spec.level, limited, safe)));
+            match r {
+                Ok(Ok(p)) => jits.push(Some(p)),
+                Ok(Err(e)) => {
+                    out.candidates.push(mk_case(cfg, job, spec, &product::ConcreteEnv::default(), format!("create returned an error on a balanced program: {}", e)));
+                    jits.push(None);
+                }
+                Err(_) => {
+                    let msg = engine::LAST_PANIC.with(|p| p.borrow_mut().take()).unwrap_or_else(|| "panic".into());
+                    out.build_panics.push(format!("{}: {}", spec.label(), msg));
+                    out.candidates.push(mk_case(cfg, job, spec, &product::ConcreteEnv::default(), format!("panic while building the executor: {}", msg)));
+                    jits.push(None);
+                }
+            }
+            execs.push(None);
+            continue;
+        }
+        jits.push(None);
         engine::LAST_PANIC.with(|p| *p.borrow_mut() = None);
         let r = catch_unwind(AssertUnwindSafe(|| subject::build::<SymCell<B>>(spec.backend, &job.code, spec.level)));
         match r {
@@ -204,11 +228,11 @@ fn run_job_w<const B: u32>(job: &Job, specs: &[Spec], cfg: &JobCfg) -> JobOut {
             return po;
         }
         let ref_reads = r.events.iter().filter(|e| matches!(e, engine::Event::In | engine::Event::InFail)).count() as u32;
-        for (spec, exec) in specs.iter().zip(execs.iter()) {
-            let exec = match exec {
-                Some(e) => e,
-                None => continue,
-            };
+        for (si, (spec, exec)) in specs.iter().zip(execs.iter()).enumerate() {
+            let jit = jits[si].as_ref();
+            if exec.is_none() && jit.is_none() {
+                continue;
+            }
             match (spec.only_on, &r.run.status) {
                 (Some(OnlyOn::Halted), RefStatus::Halted | RefStatus::Faulted) => {}
                 (Some(OnlyOn::Divergent), RefStatus::Divergent { .. }) => {}
@@ -242,7 +266,14 @@ fn run_job_w<const B: u32>(job: &Job, specs: &[Spec], cfg: &JobCfg) -> JobOut {
                 crate::guard::set_case(&mk_case(cfg, job, spec, &env0, "guard-page fault during symbolic execution".into()).to_json().to_string());
                 crate::guard::set_mode(job.guard);
             }
-            let res = catch_unwind(AssertUnwindSafe(|| run_sub::<B>(&**exec, spec.mode, spec.no_input, spec.no_output)));
+            let max_ops = cfg.limits.max_ops;
+            crate::guard::track_begin();
+            let res = catch_unwind(AssertUnwindSafe(|| match (exec, jit) {
+                (Some(e), _) => run_sub::<B>(&**e, spec.mode, spec.no_input, spec.no_output),
+                (None, Some(j)) => crate::x86env::run(j, spec.mode, spec.no_input, spec.no_output, max_ops),
+                _ => unreachable!(),
+            }));
+            crate::guard::track_end(res.is_err());
             crate::guard::set_mode(0);
             let end = match res {
                 Ok(o) => SubEnd::Out(o),
@@ -279,7 +310,11 @@ fn run_job_w<const B: u32>(job: &Job, specs: &[Spec], cfg: &JobCfg) -> JobOut {
                     }
                     if cfg.twice {
                         engine::with(|c| c.ops = 0);
-                        let res2 = catch_unwind(AssertUnwindSafe(|| run_sub::<B>(&**exec, spec.mode, spec.no_input, spec.no_output)));
+                        let res2 = catch_unwind(AssertUnwindSafe(|| match (exec, jit) {
+                            (Some(e), _) => run_sub::<B>(&**e, spec.mode, spec.no_input, spec.no_output),
+                            (None, Some(j)) => crate::x86env::run(j, spec.mode, spec.no_input, spec.no_output, max_ops),
+                            _ => unreachable!(),
+                        }));
                         match res2 {
                             Ok(o2) => {
                                 if o2.events != o.events || o2.ret != o.ret {
@@ -425,7 +460,15 @@ pub fn run_jobs(jobs: &[Job], specs_for: &(dyn Fn(&Job) -> Vec<Spec> + Sync), cf
                     }
                 }
                 let specs = specs_for(&jobs[i]);
+                let trace = std::env::var("SYMX_TRACE_JOBS").is_ok();
+                let rss0 = if trace { rss_kb() } else { 0 };
                 let out = run_job(&jobs[i], &specs, cfg);
+                if trace {
+                    let rss1 = rss_kb();
+                    if rss1 > rss0 + 200_000 || std::env::var("SYMX_TRACE_ALL").is_ok() {
+                        eprintln!("live {} MB; RSS {} -> {} MB during job {} w{} [{}] {:?}", crate::guard::LIVE_BYTES.load(std::sync::atomic::Ordering::Relaxed) / (1 << 20), rss0 / 1024, rss1 / 1024, i, jobs[i].width, jobs[i].tag, crate::report::short(&jobs[i].code));
+                    }
+                }
                 results.lock().unwrap().push(out);
             }})
             .unwrap();
@@ -440,4 +483,8 @@ pub fn unsafe_region(excursion: isize, program_len: usize) -> isize {
     let need = excursion + program_len as isize + 1;
     // 2*m cells of 1..8 bytes: m a multiple of 2048 makes 2*m*w a multiple of 4096
     ((need + 2047) / 2048) * 2048
+}
+
+fn rss_kb() -> u64 {
+    std::fs::read_to_string("/proc/self/statm").ok().and_then(|s| s.split_whitespace().nth(1).and_then(|x| x.parse::<u64>().ok())).map(|p| p * 4).unwrap_or(0)
 }
